@@ -493,7 +493,11 @@ void ElemStack::expandMap(StackElem* const toExpand)
     //  since this is a by value map and the current map index controls what
     //  is relevant.
     //
-    memcpy(newMap, toExpand->fMap, oldCap * sizeof(PrefMapElem));
+    //  (the very first expansion has no old map: memcpy must not be handed
+    //  a null source pointer, even for a zero size)
+    //
+    if (oldCap)
+        memcpy(newMap, toExpand->fMap, oldCap * sizeof(PrefMapElem));
 
     // Delete the old map and store the new stuff
     fMemoryManager->deallocate(toExpand->fMap);//delete [] toExpand->fMap;
